@@ -253,6 +253,39 @@ def parseArgument (fa : List FArg) (lenient : Bool) (tok : Str) (σ : St) : PR S
       else if lenient then .ok σ else .error (.cannotParse, σ)
   else if lenient then .ok σ else .error (.cannotParse, σ)
 
+/-- the look-ahead of `_add_long_option`: when no value was attached, the option accepts one
+and tokens remain, the next token is consumed as the value unless it starts with `-`
+(an empty token is consumed and means "no value") -/
+def peekValue (o : Opt) (value : Option Str) (tokens : List Str) : Option Str × List Str :=
+  if value.isNone && o.accepts && tokens.length != 0 then
+    match tokens with
+    | [] => (value, tokens)
+    | [] :: rest => (some [], rest)                              -- `elif not nxt: value = ""`
+    | (c :: cs) :: rest => if c != '-' then (some (c :: cs), rest) else (value, (c :: cs) :: rest)
+  else (value, tokens)
+
+/-- the second half of `_add_long_option`: record the (possibly absent) value under `name` -/
+def storeOpt (o : Opt) (name : Str) (value : Option Str) (σ : St) : PR St :=
+  match value with
+  | none =>
+    if o.valReq then .error (.cannotParse, σ)
+    else if o.multi then
+      -- `self._options[name].append(None)`
+      match dictGet? name σ.opts with
+      | none => .ok { σ with opts := dictSet name (.many [.none]) σ.opts }
+      | some (.many l) => .ok { σ with opts := dictSet name (.many (l ++ [.none])) σ.opts }
+      | some _ => .error (.other "AttributeError", σ)
+    else
+      let v : RawOpt := if o.valOpt then .dflt o.default else .one (.bool true)
+      .ok { σ with opts := dictSet name v σ.opts }
+  | some v =>
+    if o.multi then
+      match dictGet? name σ.opts with
+      | none => .ok { σ with opts := dictSet name (.many [.str v]) σ.opts }
+      | some (.many l) => .ok { σ with opts := dictSet name (.many (l ++ [.str v])) σ.opts }
+      | some _ => .error (.other "AttributeError", σ)
+    else .ok { σ with opts := dictSet name (.one (.str v)) σ.opts }
+
 /-- `_add_long_option`; returns the new state and the remaining tokens -/
 def addLong (f : Fmt) (name : Str) (value : Option Str) (tokens : List Str) (σ : St) :
     PR (St × List Str) :=
@@ -261,36 +294,11 @@ def addLong (f : Fmt) (name : Str) (value : Option Str) (tokens : List Str) (σ 
   | some o =>
     if value.isSome && !o.accepts then .error (.cannotParse, σ)
     else
-      -- look at the next token when no value was attached
-      let (value, tokens) :=
-        if value.isNone && o.accepts && tokens.length != 0 then
-          match tokens with
-          | [] => (value, tokens)
-          | nxt :: rest =>
-            match nxt with
-            | [] => (some [], rest)                              -- `elif not nxt: value = ""`
-            | c :: _ => if c != '-' then (some nxt, rest) else (value, nxt :: rest)
-        else (value, tokens)
-      let value := if value == some [] then none else value     -- `--foo=` : no value
-      match value with
-      | none =>
-        if o.valReq then .error (.cannotParse, σ)
-        else if o.multi then
-          -- `self._options[name].append(None)`
-          match dictGet? name σ.opts with
-          | none => .ok ({ σ with opts := dictSet name (.many [.none]) σ.opts }, tokens)
-          | some (.many l) => .ok ({ σ with opts := dictSet name (.many (l ++ [.none])) σ.opts }, tokens)
-          | some _ => .error (.other "AttributeError", σ)
-        else
-          let v : RawOpt := if o.valOpt then .dflt o.default else .one (.bool true)
-          .ok ({ σ with opts := dictSet name v σ.opts }, tokens)
-      | some v =>
-        if o.multi then
-          match dictGet? name σ.opts with
-          | none => .ok ({ σ with opts := dictSet name (.many [.str v]) σ.opts }, tokens)
-          | some (.many l) => .ok ({ σ with opts := dictSet name (.many (l ++ [.str v])) σ.opts }, tokens)
-          | some _ => .error (.other "AttributeError", σ)
-        else .ok ({ σ with opts := dictSet name (.one (.str v)) σ.opts }, tokens)
+      let p := peekValue o value tokens
+      let value := if p.1 == some [] then none else p.1            -- `--foo=` : no value
+      match storeOpt o name value σ with
+      | .error e => .error e
+      | .ok σ' => .ok (σ', p.2)
 
 /-- `_add_short_option` -/
 def addShort (f : Fmt) (name : Str) (value : Option Str) (tokens : List Str) (σ : St) :
@@ -360,38 +368,48 @@ def parseShort (f : Fmt) (name : Str) (tokens : List Str) (σ : St) : PR (St × 
         else addShort f name none tokens σ
       | none => addShort f name none tokens σ
 
+/-- `parse_options and token[0] == "-" and token != "-"` (`token[0]` of an empty token would
+raise IndexError; the loop tests `token == ""` first) -/
+def shortTest (po : Bool) (tok : Str) : Except Err Bool :=
+  if po then
+    match tok with
+    | [] => .error (.other "IndexError")
+    | c :: _ => .ok (c == '-' && tok != ['-'])
+  else .ok false
+
+/-- one iteration of the `while True` loop of `_parse` on the popped token `tok`:
+new state, remaining tokens, `parse_options` -/
+def step (f : Fmt) (lenient : Bool) (tok : Str) (rest : List Str) (po : Bool) (σ : St) :
+    PR (St × List Str × Bool) :=
+  if po && tok == [] then
+    match parseArgument f.fargs lenient tok σ with
+    | .error e => .error e
+    | .ok σ' => .ok (σ', rest, po)
+  else if po && tok == ['-', '-'] then .ok (σ, rest, false)
+  else if po && tok.take 2 == ['-', '-'] then
+    match parseLong f (tok.drop 2) rest σ with
+    | .error e => .error e
+    | .ok (σ', rest') => .ok (σ', rest', po)
+  else
+    match shortTest po tok with
+    | .error e => .error (e, σ)
+    | .ok true =>
+      match parseShort f (tok.drop 1) rest σ with
+      | .error e => .error e
+      | .ok (σ', rest') => .ok (σ', rest', po)
+    | .ok false =>
+      match parseArgument f.fargs lenient tok σ with
+      | .error e => .error e
+      | .ok σ' => .ok (σ', rest, po)
+
 /-- the `while True` loop of `_parse`, fuel-indexed -/
 def loop (f : Fmt) (lenient : Bool) : Nat → List Str → Bool → St → PR St
   | 0, _, _, σ => .error (.outOfFuel, σ)
   | _ + 1, [], _, σ => .ok σ
   | n + 1, tok :: rest, po, σ =>
-    if po && tok == [] then
-      match parseArgument f.fargs lenient tok σ with
-      | .error e => .error e
-      | .ok σ' => loop f lenient n rest po σ'
-    else if po && tok == ['-', '-'] then loop f lenient n rest false σ
-    else if po && tok.take 2 == ['-', '-'] then
-      match parseLong f (tok.drop 2) rest σ with
-      | .error e => .error e
-      | .ok (σ', rest') => loop f lenient n rest' po σ'
-    else
-      -- `parse_options and token[0] == "-" and token != "-"`
-      let short : Except Err Bool :=
-        if po then
-          match tok with
-          | [] => .error (.other "IndexError")
-          | c :: _ => .ok (c == '-' && tok != ['-'])
-        else .ok false
-      match short with
-      | .error e => .error (e, σ)
-      | .ok true =>
-        match parseShort f (tok.drop 1) rest σ with
-        | .error e => .error e
-        | .ok (σ', rest') => loop f lenient n rest' po σ'
-      | .ok false =>
-        match parseArgument f.fargs lenient tok σ with
-        | .error e => .error e
-        | .ok σ' => loop f lenient n rest po σ'
+    match step f lenient tok rest po σ with
+    | .error e => .error e
+    | .ok (σ', rest', po') => loop f lenient n rest' po' σ'
 
 /-- `_flatten(self._arguments.values())` (only tokens can be there at that point) -/
 def flattenArgs : List (ArgKey × RawArg) → List V
@@ -540,6 +558,31 @@ def storeOpts (cv : Conv) (f : Fmt) : List (Str × RawOpt) → Args → Except E
 def missingArgs (f : Fmt) (σ : St) : List FArg :=
   f.fargs.filter fun a => !(dictHas a.key σ.args) && a.required
 
+/-- `try: self._parse(...) except (CannotParseArgsException, NoSuchOptionException): if not lenient: raise` -/
+def afterLoop (lenient : Bool) (r : PR St) : Except Err St :=
+  match r with
+  | .ok σ => .ok σ
+  | .error (e, σ) =>
+    if (e == .cannotParse || e == .noSuchOption) && lenient then .ok σ else .error e
+
+def stateOf (r : PR St) : St :=
+  match r with
+  | .ok σ => σ
+  | .error (_, σ) => σ
+
+/-- the rest of `parse()` after the token loop: re-alignment against omitted command names,
+validation, conversion and storing -/
+def finish (cv : Conv) (f : Fmt) (lenient : Bool) (σ1 : St) : Except Err Args × St :=
+  match insertMissing f lenient σ1 with
+  | .error e => (.error e, σ1)
+  | .ok σ2 =>
+    if !(missingArgs f σ2).isEmpty && !lenient then (.error .cannotParse, σ2)
+    else
+      let res := do
+        let a ← storeArgs cv f σ2.args { args := [], opts := [] }
+        storeOpts cv f σ2.opts a
+      (res, σ2)
+
 /-- `DefaultArgsParser.parse` on a parser object whose scratch dictionaries hold `prev` (left
 there by an earlier parse; C05).  `ra` / `ro` say whether `parse()` re-initialises
 `self._arguments` / `self._options` first. -/
@@ -547,22 +590,9 @@ def parseFromR (ra ro : Bool) (prev : St) (cv : Conv) (f : Fmt) (lenient : Bool)
     Except Err Args × St :=
   let σ0 : St := { args := if ra then [] else prev.args, opts := if ro then [] else prev.opts }
   let r := loop f lenient (tokens.length + 1) tokens true σ0
-  let σ1 : Except Err St := match r with
-    | .ok σ => .ok σ
-    | .error (e, σ) =>
-      if (e == .cannotParse || e == .noSuchOption) && lenient then .ok σ else .error e
-  match σ1 with
-  | .error e => (.error e, match r with | .ok σ => σ | .error (_, σ) => σ)
-  | .ok σ1 =>
-    match insertMissing f lenient σ1 with
-    | .error e => (.error e, σ1)
-    | .ok σ2 =>
-      if !(missingArgs f σ2).isEmpty && !lenient then (.error .cannotParse, σ2)
-      else
-        let res := do
-          let a ← storeArgs cv f σ2.args { args := [], opts := [] }
-          storeOpts cv f σ2.opts a
-        (res, σ2)
+  match afterLoop lenient r with
+  | .error e => (.error e, stateOf r)
+  | .ok σ1 => finish cv f lenient σ1
 
 /-- what the code does: the two flags are read from the current source (Gen/C05.lean) -/
 def parseFrom (prev : St) (cv : Conv) (f : Fmt) (lenient : Bool) (tokens : List Str) :
